@@ -4,7 +4,8 @@
    saving.py / trainer.py / loading.py on every run. *)
 From Coq Require Import String.
 From Coq Require Import ZArith List Bool.
-From TV Require Import gen.SaveIR model.Snapshot proofs.SnapshotProofs.
+From TV Require Import gen.SaveIR gen.TrainIR model.Snapshot proofs.SnapshotProofs.
+From TV Require proofs.SnapshotTie.
 Import ListNotations.
 Open Scope Z_scope.
 
@@ -146,3 +147,34 @@ Theorem C19_resave_after_crash_stale_refuted :
   resume cstep_of s1 = Resumed 1 /\
   loaded (exec (hist_ops_with save_prog_c2ddcaf s1 stale_run2) s1) <> Some (payload (sv_data (csave 2 3))).
 Proof. exact resave_after_crash_stale_refuted. Qed.
+
+(* ---- ties of the window, the mode switch and the call order to trainer.py (gen/TrainIR.v, regenerated) ---- *)
+(* the replay-window statements of train_step denote window_append (comparison `>`, bound, slice [1:]) *)
+Theorem C19_window_tie : forall (A : Type) (cap : Z) (buf : list A) (b : A),
+  wexec window_prog cap buf b = window_append cap buf b.
+Proof. exact SnapshotTie.window_tie. Qed.
+(* serve_mode: capture k: v.cpu(), then convert *)
+Theorem C19_serve_mode_tie : forall (T : Type) (cast : dtype -> T -> T) on_cpu serve train dflt (t : bool * @pstate T),
+  mexec cast on_cpu serve train dflt serve_prog t = serve_tensor cast on_cpu serve dflt t.
+Proof. exact SnapshotTie.serve_mode_tie. Qed.
+(* train_mode: convert, THEN load_state_dict(train_params) *)
+Theorem C19_train_mode_tie : forall (T : Type) (cast : dtype -> T -> T) on_cpu serve train dflt (t : bool * @pstate T),
+  mexec cast on_cpu serve train dflt train_prog t = train_tensor cast train dflt t.
+Proof. exact SnapshotTie.train_mode_tie. Qed.
+Theorem C19_train_step_order_tie :
+  train_step_events = [EWindow; ETrainMode; EStepInc; EOptimise; EServeMode].
+Proof. exact SnapshotTie.train_step_order_tie. Qed.
+(* the optimiser is constructed before load_or_init_model (load_state_dict must copy INTO its parameters) *)
+Theorem C19_run_async_order_tie :
+  run_async_events = [EBuildModel; EBuildOpt; ELoadOrInit; EServeMode; ETrainLoop].
+Proof. exact SnapshotTie.run_async_order_tie. Qed.
+Theorem C19_train_loop_order_tie :
+  loop_pre = [EHook "before_run"] /\
+  loop_body = [EHook "before_rollout"; EHook "before_train"; ETrainStep; EHook "after_step"; EHook "finalize"] /\
+  loop_post = [EHook "after_run"].
+Proof. exact SnapshotTie.train_loop_order_tie. Qed.
+(* documentation of the known finding serve-precision-snapshot: every saving hook runs after serve_mode *)
+Theorem C19_hooks_run_in_serving_precision :
+  In ("after_step", Serving) hook_observations /\ In ("after_run", Serving) hook_observations /\
+  forall h m, In (h, m) hook_observations -> (h = "after_step" \/ h = "after_run") -> m = Serving.
+Proof. exact SnapshotTie.hooks_run_in_serving_precision. Qed.
